@@ -20,6 +20,7 @@ package classdef
 
 import (
 	"fmt"
+	"math"
 	"sort"
 
 	"seehuhn.de/go/sfnt/glyph"
@@ -159,6 +160,10 @@ func (info Table) getEncInfo() *encInfo {
 	}
 
 	format1Size := 6 + 2*(int(maxGid)-int(minGid)+1)
+	if int(maxGid)-int(minGid)+1 > 0xFFFF {
+		// The glyph count of format 1 is a 16-bit field.
+		format1Size = math.MaxInt
+	}
 
 	segCount := 0
 	segStart := -1
@@ -182,6 +187,9 @@ func (info Table) getEncInfo() *encInfo {
 	}
 
 	format2Size := 4 + 6*segCount
+	if format1Size == math.MaxInt && segCount > 0xFFFF {
+		panic("class definition table too large")
+	}
 
 	return &encInfo{
 		minGid:      minGid,
